@@ -290,6 +290,12 @@ impl MsgSpec {
         let tid: TransactionId = self.tid.into();
         let store: Vec<Option<Box<dyn AttributeWrite>>> = self.attrs.iter().map(|a| a.make(tid)).collect();
         let mut b = Message::builder(self.lib_type(), tid);
+        // one description in five (decided by its content) is assembled by an application that also
+        // attempts operations the builder refuses — a second attribute of a type already present, an
+        // attribute after the seal, a second fingerprint.  A refused operation must leave no trace in
+        // what is serialised, sealed and fingerprinted afterwards.
+        let noisy = (self.tid as u64).wrapping_add(self.attrs.len() as u64 * 3).wrapping_add(self.seals.len() as u64) % 5 == 0;
+        let noise_val = [0x5au8; 7];
         for (a, s) in self.attrs.iter().zip(store.iter()) {
             match (a, s) {
                 (TAttr::Raw(ty, v), _) => {
@@ -304,15 +310,35 @@ impl MsgSpec {
                 _ => {}
             }
         }
+        if noisy {
+            // repeats of types already present: refused (AttributeExists)
+            for (a, s) in self.attrs.iter().zip(store.iter()).take(2) {
+                match (a, s) {
+                    (TAttr::Raw(ty, _), _) if *ty != MI && *ty != MI256 && *ty != FP => {
+                        if b.has_attribute(AttributeType::new(*ty)) {
+                            let _ = b.add_raw_attribute(RawAttribute::new(AttributeType::new(*ty), &noise_val));
+                        }
+                    }
+                    (_, Some(boxed)) => {
+                        if b.has_attribute(boxed.get_type()) {
+                            let _ = b.add_attribute(boxed.as_ref());
+                        }
+                    }
+                    _ => {}
+                }
+            }
+        }
         for s in &self.seals {
-            match s {
-                Seal::Sha1(c) => {
-                    let _ = b.add_message_integrity(&c.lib(), IntegrityAlgorithm::Sha1);
-                }
-                Seal::Sha256(c) => {
-                    let _ = b.add_message_integrity(&c.lib(), IntegrityAlgorithm::Sha256);
-                }
-                Seal::Fp => {
+            let sealed = match s {
+                Seal::Sha1(c) => b.add_message_integrity(&c.lib(), IntegrityAlgorithm::Sha1).is_ok(),
+                Seal::Sha256(c) => b.add_message_integrity(&c.lib(), IntegrityAlgorithm::Sha256).is_ok(),
+                Seal::Fp => b.add_fingerprint().is_ok(),
+            };
+            // (only behind a seal the builder really added: one it declined leaves the message open)
+            if noisy && sealed {
+                // after a seal: an ordinary attribute is refused; so is a second fingerprint
+                let _ = b.add_raw_attribute(RawAttribute::new(AttributeType::new(0x7f01), &noise_val));
+                if matches!(s, Seal::Fp) {
                     let _ = b.add_fingerprint();
                 }
             }
